@@ -195,7 +195,9 @@ func init() {
 					base.Outs[k].Script = sc
 				case 1:
 					base.Outs[k].Script = prng.Pick(r, [][]byte{{0x00}, {0x6a}, {0x51}, {0x00, 0x6a}, {0x00, 0x00}, {0x4c}, {0x01}, {0x6a, 0x4c}, {0x00, 0x6a, 0x01},
-						{0x4d}, {0x4d, 0x01}, {0x4e}, {0x4e, 0x01}, {0x4e, 0x01, 0x02}, {0x4e, 0x01, 0x02, 0x03}, {0x51, 0x4e, 0x00, 0x00, 0x00}, {0x4c, 0x05, 0x01}, {0x05, 0x01, 0x02}, {}})
+						{0x4d}, {0x4d, 0x01}, {0x4e}, {0x4e, 0x01}, {0x4e, 0x01, 0x02}, {0x4e, 0x01, 0x02, 0x03}, {0x51, 0x4e, 0x00, 0x00, 0x00}, {0x4c, 0x05, 0x01}, {0x05, 0x01, 0x02}, {},
+						// shaped like a bare multisig (small integer … small integer, last element) with empty pushes in the places of keys / counts / the final opcode
+						{0x51, 0x51, 0x4c, 0x00}, {0x51, 0x51, 0x4d, 0x00, 0x00}, {0x51, 0x51, 0x4e, 0x00, 0x00, 0x00, 0x00}, {0x51, 0x4c, 0x00, 0x51, 0xae}, {0x4c, 0x00, 0x51, 0x51, 0xae}, {0x51, 0x01, 0x07, 0x51, 0x4c, 0x00}, {0x00, 0x00, 0xae}, {0x51, 0x01, 0x07, 0x60, 0xae}})
 				case 2: // a P2PKH-inscription envelope whose pushes (content type, separator, payload) use every legal form, empty ones included
 					form := func(d []byte) []byte {
 						if len(d) == 0 {
@@ -245,6 +247,11 @@ func init() {
 				for k := range s.Ins {
 					s.Ins[k].Unlock, s.Ins[k].UnlockNil = nil, true
 				}
+			})
+			stage("unsigned-null-outpoint", func(s *gen.Shape) { // an unsigned input that spends (00…00, 0xffffffff): the shape of a coinbase input, without a script
+				k := i % len(s.Ins)
+				s.Ins[k].Unlock, s.Ins[k].UnlockNil = nil, true
+				s.Ins[k].TxID, s.Ins[k].Vout = make([]byte, 32), 0xffffffff
 			})
 			stage("unsigned-decoded", func(s *gen.Shape) {
 				for k := range s.Ins {
